@@ -104,116 +104,118 @@ def r3_silent(ctx, F):
 
 
 def r4_budget(ctx, F):
+    """actions(): the Crash offers, read in loop normal form (A12) so that an iterator chain and a
+    `for` loop are the same program."""
+    from common import edges_where
+    from taint import origins
     rule = 'C09-R4'
-    b = F.body(ACTIONS)
-    ctx.touched(b)
-    bodies = bodies_with_closures(F, b)
-    crash_sites = []
-    for x in bodies:
-        for (i, si, st) in x.assigns(lambda st: st['rv']['k'] == 'agg' and
-                                     st['rv'].get('adt', '').endswith('ActorModelAction') and
-                                     st['rv']['variant'] == 'Crash'):
-            crash_sites.append((x, i, st))
+    b0 = F.body(ACTIONS)
+    ctx.touched(b0)
+    b = F.norm(b0)
+    crash_sites = [(i, st) for (i, si, st) in b.assigns(lambda st: st['rv']['k'] == 'agg' and
+                                                        st['rv'].get('adt', '').endswith('ActorModelAction') and
+                                                        st['rv']['variant'] == 'Crash')]
     if not crash_sites:
         raise AnchorMissing('actions(): construction of ActorModelAction::Crash')
-    # locate, in actions() itself, the block through which the crash closure/loop is entered
-    entry_blocks = []
-    for (x, i, st) in crash_sites:
-        y, blk = x, i
-        while y is not b:
-            parent, call, ai = F.closure_consumer(y)
-            if call is None:
-                raise AnchorMissing('consumer of closure %s' % y.path)
-            y, blk = parent, call.bb
-        entry_blocks.append(blk)
-    # the guard: a strict comparison between the count of crashed actors and self.max_crashes
-    guards = []
-    for sw in b.switches:
-        on = sw.on
-        if on.kind == 'bin' and on.key[0] in ('Lt', 'Gt', 'Le', 'Ge', 'Ne', 'Eq'):
-            ops = [noref(o) for o in on.key[1:]]
-            mc = [k for k, o in enumerate(ops) if o.fields()[-1:] == ('.max_crashes',)]
-            cnt = [k for k, o in enumerate(ops) if o.kind == 'call' and b.call_at(o.key) is not None and
-                   b.call_at(o.key).is_('Iterator::count', 'Iterator::sum', 'Vec::len')]
-            if mc and cnt:
-                guards.append((sw, on.key[0], cnt[0], mc[0]))
-    ok = False
-    why = 'no comparison of the crashed count with max_crashes found'
-    for (sw, op, ci, mi) in guards:
-        strict_true = (op == 'Lt' and ci < mi) or (op == 'Gt' and ci > mi)
-        if not strict_true:
-            why = 'the budget comparison is `%s` (count operand %d, budget operand %d), not count < budget' % (op, ci, mi)
-            continue
-        te = sw.edges_for(True)
-        if te and all(b.edges_dominate(te, blk) for blk in entry_blocks):
-            ok = True
-    ctx.check(ok, rule, 'crash-offered-only-under-budget', b,
+    # the loop that produces them
+    heads = [c for c in b.calls_to('Iterator::next') if b.in_cycle(c.bb) and
+             all(b.dominates(c.bb, i) for (i, st) in crash_sites)]
+    if not heads:
+        raise AnchorMissing('actions(): loop around the Crash offers')
+    head = max(heads, key=lambda c: len([1 for x in heads if b.dominates(x.bb, c.bb)]))
+    some, none = b.branch(head, 'Some'), b.branch(head, 'None')
+    if not some or not none:
+        raise AnchorMissing('actions(): Some/None edges of the crash loop')
+
+    def is_count(v):
+        v = noref(v)
+        c = b.call_at(v.key) if v.kind == 'call' else None
+        return c is not None and c.is_('Iterator::count', 'Iterator::sum', 'Vec::len')
+
+    def is_budget(v):
+        return noref(v).fields()[-1:] == ('.max_crashes',)
+    lt = edges_where(b, is_count, is_budget, 'lt', with_blocks=True)
+    loose = edges_where(b, is_count, is_budget, 'le') + edges_where(b, is_count, is_budget, 'ne')
+    ok = bool(lt) and all(b.edges_dominate([e for (_bb, es) in lt for e in es], head.bb) for _ in (0,))
+    why = 'no comparison `count < max_crashes` guards the crash offers' + \
+        (' (a non-strict / inequality comparison was found instead)' if loose and not lt else '')
+    ctx.check(ok, rule, 'crash-offered-only-under-budget', b0,
               good='Crash actions are offered only when (number of crashed actors) < max_crashes',
               bad='actions(): %s: more than max_crashes actors can be down at once, or the budget is never '
                   'usable' % why)
-    # the count really counts set flags of state.crashed
+    # the count really counts set flags of state.crashed (read on the un-normalised body: the
+    # counting chain is `state.crashed.iter().filter(..).count()`)
     okc = False
-    for (sw, op, ci, mi) in guards:
-        cv = noref([noref(o) for o in sw.on.key[1:]][ci])
-        c = b.call_at(cv.key)
-        src = noref(b.trace(b.val(c.args[0]), ('Iterator::filter', 'slice::iter', 'Deref::deref', 'Vec::iter',
-                                               'IntoIterator::into_iter', 'Iterator::copied', 'Iterator::cloned')))
+    for c in b0.calls_to('Iterator::count', 'Iterator::sum', 'Vec::len'):
+        used = any(is_count(x) and noref(x).key == cb_.bb for (x, y, r, te, fe, bb) in __import__('common').comparisons(b)
+                   for cb_ in b.calls if cb_.span == c.span and cb_.short == c.short) or \
+            any(is_count(y) and noref(y).key == cb_.bb for (x, y, r, te, fe, bb) in __import__('common').comparisons(b)
+                for cb_ in b.calls if cb_.span == c.span and cb_.short == c.short)
+        if not used:
+            continue
+        src = noref(b0.trace(b0.val(c.args[0]), ('Iterator::filter', 'slice::iter', 'Deref::deref', 'Vec::iter',
+                                                 'IntoIterator::into_iter', 'Iterator::copied', 'Iterator::cloned')))
         if src.fields()[-1:] == ('.crashed',):
             okc = True
-    ctx.check(okc, rule, 'count-is-over-crashed-flags', b,
+    ctx.check(okc, rule, 'count-is-over-crashed-flags', b0,
               good='the compared count is taken over state.crashed',
               bad='actions(): the number compared with max_crashes is not derived from state.crashed')
-    # every up actor gets a Crash action: no truncating adaptor in the chain, filter keeps crashed == false
+    # every up actor gets a Crash action: the loop runs over enumerate(state.crashed) without a
+    # truncating adaptor and without leaving early
     trunc = []
-    for (x, i, st) in crash_sites:
-        y = x
-        while y is not b:
-            parent, call, ai = F.closure_consumer(y)
-            # walk the receiver chain of the consuming call
-            v = parent.val(call.args[0])
-            seen = 0
-            while v.kind == 'call' and seen < 12:
-                cc = parent.call_at(v.key)
-                if cc is None:
-                    break
-                if cc.is_(*TRUNCATING):
-                    trunc.append(cc)
-                if not cc.args:
-                    break
-                v = parent.val(cc.args[0])
-                seen += 1
-            if call.is_(*TRUNCATING):
-                trunc.append(call)
-            y = parent
-    ctx.check(not trunc, rule, 'every-up-actor-may-crash', b,
-              good='the chain from state.crashed to the Crash actions has no truncating adaptor',
-              bad='actions(): the iterator chain that produces Crash actions is truncated by %s: only some '
-                  'of the actors that are up are ever offered a crash, so some crash points are never '
-                  'explored' % [t.short.split('::')[-1] + '@' + t.span for t in trunc])
-    # the per-actor filter keeps only actors that are not crashed, and the id is the enumeration index
-    okf = False
-    for (x, i, st) in crash_sites:
-        idv = x.val(st['rv']['ops'][0])
-        c = x.call_at(idv.key) if idv.kind == 'call' else None
+    chain = []
+    v = b.val(head.args[0])
+    seen = 0
+    while seen < 16:
+        v = noref(v)
+        if v.kind != 'call':
+            break
+        cc = b.call_at(v.key)
+        if cc is None or not cc.args:
+            break
+        chain.append(cc)
+        if cc.is_(*TRUNCATING):
+            trunc.append(cc)
+        v = b.val(cc.args[0])
+        seen += 1
+    base_ok = noref(v).fields()[-1:] == ('.crashed',) and any(c.is_('Iterator::enumerate') for c in chain)
+    body = b.reach([e[1] for e in some], cut_blocks=[head.bb])
+    early = [x for x in body if x in [e[1] for e in none] or x in b.returns]
+    ctx.check(not trunc and base_ok and not early, rule, 'every-up-actor-may-crash', b0,
+              good='the Crash offers are produced by a full pass over enumerate(state.crashed)',
+              bad='actions(): the loop that produces Crash actions %s: only some of the actors that are up are '
+                  'ever offered a crash, so some crash points are never explored' %
+                  ('is truncated by %s' % [t.short.split('::')[-1] + '@' + t.span for t in trunc] if trunc else
+                   'leaves the loop early' if early else 'does not run over enumerate(state.crashed)'))
+    # only actors whose flag is false, keyed by the enumeration index
+    okf = True
+    for (i, st) in crash_sites:
+        idv = b.val(st['rv']['ops'][0])
+        c = b.call_at(idv.key) if idv.kind == 'call' else None
         if c is None or not c.is_('From::from'):
+            okf = False
             continue
-        okf = True
-    fm = [cl for cl in bodies if cl is not b and any(
-        sw.kind == 'bool' for sw in cl.switches)]
+        org = origins(b, c.args[0])
+        if not org or not all(isinstance(o, tuple) and o[0] == 'proj' and o[1] is head and o[2][-1] == '0' and
+                              '1' not in o[2][1:] for o in org):
+            okf = False
     okn = False
-    for cl in bodies:
-        if cl is b:
+    for sw in b.switches:
+        if sw.kind != 'bool' or sw.bb not in body:
             continue
-        somes = [(i, st) for (i, si, st) in cl.assigns(lambda st: st['lhs']['l'] == 0 and st['rv']['k'] == 'agg'
-                                                       and st['rv'].get('variant') == 'Some')]
-        if not somes:
-            continue
-        for sw in cl.switches:
-            if sw.kind == 'bool' and noref(sw.on).kind == 'arg':
-                fe = sw.edges_for(False)
-                if fe and all(cl.edges_dominate(fe, i) for (i, st) in somes):
-                    okn = True
-    ctx.check(okf and okn, rule, 'only-up-actors-crash', b,
+        on = noref(sw.on)
+        org = None
+        if on.kind == 'call' and on.key == head.bb and on.fields()[-1:] == ('.1',):
+            org = True
+        elif on.kind == 'local':
+            og = origins(b, {'k': 'copy', 'place': {'l': on.key, 'p': []}})
+            org = bool(og) and all(isinstance(o, tuple) and o[0] == 'proj' and o[1] is head and o[2][-1] == '1'
+                                   for o in og)
+        if org:
+            fe = sw.edges_for(False)
+            if fe and all(b.edges_dominate(fe, i, frm=[e[1] for e in some]) for (i, st) in crash_sites):
+                okn = True
+    ctx.check(okf and okn, rule, 'only-up-actors-crash', b0,
               good='a Crash(Id::from(i)) is produced only for actors whose flag is false',
               bad='actions(): Crash actions are not restricted to actors that are up / not keyed by index')
 
